@@ -20,7 +20,12 @@ Monitors (all at public boundaries of the real code):
    errors, covariances, t-tests, sensitivity draws by name;
  * by-name dictionaries: simulate(dict), beta_values_dict_to_list,
    get_value_c(betas=partial), named derivatives, change_init_values, fix_betas;
- * names shared by two kinds of element are refused (BiogemeError).
+ * names shared by two kinds of element are refused (BiogemeError);
+ * histories: the same Beta / sub-expression objects in several successively built
+   models, interleaved with stand-alone evaluations, change_init_values, fix_betas,
+   nest correlation; every live model is judged against the by-name reference and
+   the hand-over monitor after every step; a stand-alone evaluation must give the
+   evaluated expression back the id manager it carried.
 """
 from __future__ import annotations
 
@@ -45,7 +50,12 @@ RULE = (
     'alphabetical order in O or between O and S, and the renaming is not order preserving (or S changes the appearance '
     'order); distinct = hash of (specification, renaming map, re-ordered specification); directed cases: the '
     'kind x kind x entry-point matrix of duplicated names and the fixed-parameter update through '
-    'BIOGEME.change_init_values'
+    'BIOGEME.change_init_values; second family = histories on SHARED expression objects: one Beta object per name and a pool of '
+    'shared sub-expressions used in 2-3 successively built BIOGEME models whose name sets number the shared parameters '
+    'differently, interleaved with stand-alone get_value_c(prepare_ids=True) (with/without betas=), change_init_values, '
+    'fix_betas and NestsForNestedLogit.correlation() on the shared objects; after every step live models are judged '
+    '(simulate / calculate_likelihood vs the by-name reference + hand-over monitor); a history is non-trivial when it '
+    'built >= 2 models and simulated at least one of them; distinct = hash of (names, pool, steps)'
 )
 ASSUMPTIONS = [
     'reference semantics = biomon/oracle/evalast.py (numpy, complex-step derivatives), guarded at every run by a closed-form '
@@ -54,10 +64,12 @@ ASSUMPTIONS = [
     'likelihood at 1e-7 relative ("up to the optimiser\'s tolerance"); deterministic quantities at 1e-9..1e-10 relative',
     'the documented numbering (IdManager.prepare: "sorted by alphabetical order") is what free_beta_names must follow; '
     'vectors given to calculate_likelihood are built from free_beta_names as a careful user would',
+    'a model whose parameter changed status through fix_betas on a shared object after it was built is another '
+    'specification from then on: it is retired from the history, not judged',
     'Monte-Carlo and panel specifications are not part of this workload (their parameters go through the same '
     'IdManager numbering; draws are covered by C10/C11)',
 ]
-MIN_DISTINCT = {'quick': 150, 'thorough': 1500}
+MIN_DISTINCT = {'quick': 250, 'thorough': 2500}
 CASE_TIMEOUT = 600  # generous: a case needs 1-3 s of CPU; the watchdog only guards against hangs on a loaded machine
 SHARD_TIMEOUT = {'quick': 1800, 'thorough': 14400}
 
@@ -1654,6 +1666,7 @@ def _run_history(case):
     init = dict(world.init)
     models = []
     done = []
+    refixed = set()  # names whose status was changed by fix_betas after a model had been built with them
     ep.reset()
 
     def subasts(ast, acc):
@@ -1785,21 +1798,18 @@ def _run_history(case):
             except BaseException as e:
                 V(m, f'calculate-likelihood-raises-{type(e).__name__}', str(e))
 
-    def ids_restored(what):
-        """after a stand-alone evaluation of one of its own (sub-)expressions the sole owner's objects carry ITS id manager again"""
-        if not models:
-            return
-        m = models[-1]
-        if m['retired'] or not sole_owner(m):
-            return
+    def ids_restored(o, before, what):
+        """a stand-alone evaluation with prepare_ids=True gives the expression back the id manager it carried before
+        ("we restore the previous Id manager"): observed on the evaluated object itself"""
         rec.ev()
         rec.c('history_ids_restored_checked')
-        for b in _all_betas(list(m['exprs'].values())):
-            if b.id_manager is not m['bg'].id_manager:
-                V(m, 'ids-of-the-owning-model-not-restored-after-stand-alone-evaluation',
-                  f'after {what}: Beta {b.name!r} of the last built model carries another id manager '
-                  f'({"none" if b.id_manager is None else "free names " + str(b.id_manager.free_betas.names)}; the model numbers {m["free"]})', name=b.name)
-                return
+        if o.id_manager is not before:
+            def d(im):
+                return 'none' if im is None else f'free names {im.free_betas.names}'
+
+            rec.violation('C03/history-id-manager-of-evaluated-expression-not-restored',
+                          f'after {what}: the expression carried the id manager with {d(before)} and now carries the one with {d(o.id_manager)}',
+                          {'steps_so_far': done, 'names': world.names, 'pool': world.pool})
 
     def gm_distinct(rr, n):
         from ..gen import c03_models as gm
@@ -1850,6 +1860,8 @@ def _run_history(case):
             if betas:
                 vals.update({k: v for k, v in betas.items() if k in vals})
             o = world.obj(ast)
+            before = o.id_manager
+            failed = False
             key = json_key(ast)
             for m in models:
                 if key not in m['own']:
@@ -1868,8 +1880,17 @@ def _run_history(case):
                                   f'get_value_c(betas={betas}, prepare_ids=True)={got.tolist()} reference={np.asarray(want).tolist()}',
                                   {'ast': ast, 'steps_so_far': done, 'init': init, 'status': status})
             except BaseException as e:
-                rec.violation(f'C03/history-stand-alone-evaluation-raises-{type(e).__name__}', str(e), {'ast': ast, 'steps_so_far': done})
-            ids_restored(f'get_value_c(prepare_ids=True) of {ast}')
+                failed = True
+                if isinstance(e, KeyError) and any(x in refixed for x in nm):
+                    # restoring the ids of a model built when this parameter was still free: that model is a stale
+                    # specification (retired); the failed restore leaves shared objects half re-numbered
+                    rec.c('info_history_restore_of_retired_model_ids_raises_keyerror')
+                    for m in models:
+                        m['foreign_eval'] = True
+                else:
+                    rec.violation(f'C03/history-stand-alone-evaluation-raises-{type(e).__name__}', str(e), {'ast': ast, 'steps_so_far': done})
+            if not failed:
+                ids_restored(o, before, f'get_value_c(prepare_ids=True) of {ast}')
         elif op == 'chinit':
             vals = {k: v for k, v in st['values'].items() if status[k] == 0}
             live = [m for m in models if not m['retired']]
@@ -1910,6 +1931,7 @@ def _run_history(case):
                         rec.violation('C03/history-fix-betas-not-applied-by-name', f'{n!r}: {b.status} {b.initValue}', {'steps_so_far': done})
                     for m in models:
                         if n in m['used']:
+                            refixed.add(n)
                             m['retired'] = True  # another specification from now on
                             rec.c('history_models_retired_by_fix_betas')
                 except BaseException as e:
@@ -1922,6 +1944,8 @@ def _run_history(case):
             if params is not None:
                 params = {k: v for k, v in params.items() if status[k] == 0}
             b = world.obj(['beta', n])
+            before = b.id_manager
+            failed = False
             key = json_key(['beta', n])
             for m in models:
                 if key not in m['own']:
@@ -1941,8 +1965,15 @@ def _run_history(case):
                     rec.violation('C03/history-nest-correlation-not-from-the-named-parameter',
                                   f'correlation(parameters={params}) gives {got}; 1-1/mu^2 with {n!r}={mu} is {want}', {'steps_so_far': done})
             except BaseException as e:
-                rec.violation(f'C03/history-nest-correlation-raises-{type(e).__name__}', str(e), {'steps_so_far': done})
-            ids_restored(f'NestsForNestedLogit.correlation() with nest parameter {n!r}')
+                failed = True
+                if isinstance(e, KeyError) and n in refixed:
+                    rec.c('info_history_restore_of_retired_model_ids_raises_keyerror')
+                    for m in models:
+                        m['foreign_eval'] = True
+                else:
+                    rec.violation(f'C03/history-nest-correlation-raises-{type(e).__name__}', str(e), {'steps_so_far': done})
+            if not failed:
+                ids_restored(b, before, f'NestsForNestedLogit.correlation() with nest parameter {n!r}')
         # judge the live models (each with probability 0.55: first simulations must also happen late)
         if st.get('judge', True):
             for m in models:
@@ -1982,7 +2013,11 @@ def finalize(cov, tier):
             'fixed_parameters_after_estimation_checked', 'sensitivity_draws_by_name_checked', 'estimates_O_vs_R_compared',
             'estimates_O_vs_S_compared', 'likelihood_O_vs_R', 'likelihood_O_vs_S', 'simulate_O_vs_R', 'duplicates_refused',
             'renaming_order_reversing', 'models_with_one_sided_bounds', 'models_with_several_formulas',
-            'directed_fixed_update_cases', 'estimations_with_well_separated_estimates', 'bootstrap_by_name_checked', 'bootstrap_O_vs_R_compared']
+            'directed_fixed_update_cases', 'estimations_with_well_separated_estimates', 'bootstrap_by_name_checked', 'bootstrap_O_vs_R_compared',
+            'history_judgements', 'history_judgements_sole_owner', 'history_first_simulate_after_later_steps',
+            'history_models_numbering_shared_parameters_differently', 'history_stand_alone_evaluations',
+            'history_nest_correlations', 'history_fix_betas', 'history_change_init_through_model', 'history_ids_restored_checked',
+            'history_handover_beta_leaves_checked', 'history_simulate_vs_reference', 'history_likelihood_vs_reference']
     from ..gen import c03_models as gm
 
     need += ['renaming_' + k for k in gm.RENAMINGS]
